@@ -115,7 +115,10 @@ class Sim(object):
             _conf_ready = True
         c = self.cfg
         cfg.CONF.set_override('hold_time', c['hold_time'], group='time')
-        cfg.CONF.set_override('keep_alive_time', max(1, c['hold_time'] // 3), group='time')
+        # the option `keep_alive_time` is left at what an operator who configures only the hold time gets - the shipped default,
+        # 60 s, unrelated to the hold time: the KEEPALIVE interval of a session must come from the NEGOTIATED hold time alone
+        # (round 10: with an override of hold_time // 3 here, a session that kept the configured interval was invisible)
+        cfg.CONF.set_override('keep_alive_time', c.get('keep_alive_time', 60), group='time')
         cfg.CONF.set_override('connect_retry_time', c['connect_retry_time'], group='time')
         cfg.CONF.set_override('idle_hold_time', c['idle_hold_time'], group='time')
         cfg.CONF.set_override('rib', bool(c['rib']), group='bgp')
